@@ -91,7 +91,8 @@ def run(ctx):
     ctx.monitor_rule = ("paired runs: same integer random_state under two different ambient generator states give identical "
                         "search_data / best_score / best_para; a random_state=None run is reproduced by random_state=random_seed "
                         "(nth_process None or 0); random_seed == random_state + nth_process; all 22 optimizers (sklearn surrogates, "
-                        "populations, nested helpers), constraints, rand_rest_p, sampling; distinct by (optimizer, seed, config)")
+                        "populations, nested helpers), constraints, rand_rest_p, sampling; population optimizers also constructed twice with the very same "
+                        "initialize object / the omitted default and a population above the number of initial positions; distinct by (optimizer, seed, config)")
     ctx.assumptions.append("absence of entropy sources other than the two global generators cannot be proved in a model: it is covered by the "
                            "seeding-event log and the paired-run monitor")
     rng = ctx.sub_rng("c07")
@@ -138,6 +139,25 @@ def run(ctx):
                 if jsonable(a["data"]) != jsonable(b["data"]) or a["best_score"] != b["best_score"] or a["best_para"] != b["best_para"]:
                     ctx.violation(dict(kind="not-reproducible", optimizer=name), dict(optimizer=name, random_state=seed, nth_process=nth, cfg=jsonable(cfg), foreign=a["foreign"][:5]),
                                   "%s(random_state=%d): two runs under different ambient generator states differ" % (name, seed))
+            # "identical arguments" taken literally: the SAME initialize object handed to both constructions (a dict the caller re-uses, or
+            # the omitted default), with a population larger than the number of initial positions so that the initialiser tops it up
+            if name in gen.POPULATION and rep == 0:
+                for shared in ({"vertices": 2, "random": 1}, None):
+                    cfg2 = dict(cfg, population=(14 if shared is None else 7))
+                    if shared is not None:
+                        cfg2["initialize"] = shared          # the same object in both runs (run_once copies the outer dict only)
+                    try:
+                        a = run_once(name, space0, f0, seed, None, 5, n_iter, cfg2, None)
+                        b = run_once(name, space0, f0, seed, None, 6, n_iter, cfg2, None)
+                    except Exception as e:
+                        ctx.blocked.append(dict(optimizer=name, exc=[type(e).__name__, str(e)[:100]]))
+                        continue
+                    ctx.monitor_runs += 2
+                    ctx.monitor_nontrivial.add((name, seed, "shared-initialize", shared is None))
+                    if jsonable(a["data"]) != jsonable(b["data"]) or a["best_score"] != b["best_score"] or a["best_para"] != b["best_para"]:
+                        ctx.violation(dict(kind="not-reproducible", optimizer=name, shared_initialize=True),
+                                      dict(optimizer=name, random_state=seed, cfg=jsonable(cfg2), initialize_after=jsonable(shared)),
+                                      "%s(random_state=%d): constructed twice with the same arguments (the same initialize object / the default), the two runs differ" % (name, seed))
             # random_state=None, replay through random_seed
             for nth in (None, 0):
                 try:
